@@ -7,34 +7,44 @@ Require Import Verif.lib.PyLite Verif.gen.RefsGen Verif.lib.Refs Verif.lib.RefsP
 Local Open Scope Z_scope.
 
 (* "while the receiving side still holds it, a pass-by-reference object sent any number of times over one connection
-   ... always arrives as the very same proxy object".
-   FULL STATEMENT (no safe_run hypothesis) is REFUTED below (D16).  Proved for every history in which no decref
-   answer frees a table entry that belongs to a different tracker (safe_op is the exact guard, evaluated on the run). *)
-Theorem C08_same_proxy_partial : forall ops,
-  safe_run init ops ->
+   ... always arrives as the very same proxy object": FULL statement, every history (repair of D16, ab72d65: the answer to a
+   decref releases the import-table entry only if it still is the answered tracker -- read from freeYourReferenceTracker
+   on every run; the proofs stop type-checking if the source deletes by anything else) *)
+Theorem C08_same_proxy : forall ops,
   let s := run init ops in
   forall i t p rest,
     lost s = false -> nth_error (h_trk (hd s)) i = Some t -> t_proxy t = Some p ->
     ch_oh s = MyRef (t_clid t) false :: rest ->
     snd (step s RecvOH) = [EvDelivered p].
-Proof. exact same_proxy_partial. Qed.
-Print Assumptions C08_same_proxy_partial.
+Proof. exact same_proxy. Qed.
+Print Assumptions C08_same_proxy.
 
-Theorem C08_one_proxy_per_clid_partial : forall ops,
-  safe_run init ops ->
+Theorem C08_one_proxy_per_clid : forall ops,
   let s := run init ops in
   forall i j ti tj, nth_error (h_trk (hd s)) i = Some ti -> nth_error (h_trk (hd s)) j = Some tj ->
                     t_proxy ti <> None -> t_proxy tj <> None -> t_clid ti = t_clid tj -> i = j.
-Proof. exact one_proxy_per_clid_partial. Qed.
-Print Assumptions C08_one_proxy_per_clid_partial.
+Proof. exact one_proxy_per_clid. Qed.
+Print Assumptions C08_one_proxy_per_clid.
 
-Theorem C08_same_proxy_refuted :
-  exists ops, let s := run init ops in
+(* documentation of the OLD rule (deletion by clid, before ab72d65), in the model with the rule as a parameter: under it the
+   statement is refuted by the 15-step D16 history, and holds exactly for the histories that satisfy the guard safe_op *)
+Theorem C08_same_proxy_refuted_under_clid_rule :
+  exists ops, let s := run_k DelByClid init ops in
   exists i t p rest,
     lost s = false /\ nth_error (h_trk (hd s)) i = Some t /\ t_proxy t = Some p /\
-    ch_oh s = MyRef (t_clid t) false :: rest /\ snd (step s RecvOH) <> [EvDelivered p].
-Proof. exact same_proxy_refuted. Qed.
-Print Assumptions C08_same_proxy_refuted.
+    ch_oh s = MyRef (t_clid t) false :: rest /\ snd (step_k DelByClid s RecvOH) <> [EvDelivered p].
+Proof. exact same_proxy_refuted_under_clid_rule. Qed.
+Print Assumptions C08_same_proxy_refuted_under_clid_rule.
+
+Theorem C08_same_proxy_guarded_any_rule : forall k ops,
+  safe_run_k k init ops ->
+  let s := run_k k init ops in
+  forall i t p rest,
+    lost s = false -> nth_error (h_trk (hd s)) i = Some t -> t_proxy t = Some p ->
+    ch_oh s = MyRef (t_clid t) false :: rest ->
+    snd (step_k k s RecvOH) = [EvDelivered p].
+Proof. exact same_proxy_guarded. Qed.
+Print Assumptions C08_same_proxy_guarded_any_rule.
 
 (* the link between objects and clids: what the owner serialises for object x is a clid allocated for x, and a clid is
    allocated for exactly one object during the whole connection (so "the same object" = "the same clid") *)
@@ -51,7 +61,7 @@ Print Assumptions C08_clid_names_one_object.
 
 (* "a proxy sent back to the side that owns the object arrives as the original object itself" and "method calls
    through any of these reach the original object": a your-reference (k = false) or a call addressed through the
-   proxy (k = true) is resolved, in EVERY history (D16 included), to the object its clid was allocated for *)
+   proxy (k = true) is resolved, in EVERY history, to the object its clid was allocated for *)
 Theorem C08_home_and_calls_reach_original : forall ops,
   let s := run init ops in
   forall c k rest, lost s = false -> ch_ho s = ToOwner c k :: rest ->
@@ -162,35 +172,3 @@ Theorem C08_proxy_keeps_designating : forall ops ops2 p x,
   denotes s p x -> lost (run s ops2) = false -> holds (run s ops2) p -> denotes (run s ops2) p x.
 Proof. exact denotes_persists. Qed.
 Print Assumptions C08_proxy_keeps_designating.
-
-(* D16 and its smallest repair.  With the deletion rule of freeYourReferenceTracker as a parameter of the model
-   (`step_k` / `run_k`; the source's rule is freeTracker_delkey and `step_k freeTracker_delkey = step`): under deletion BY
-   IDENTITY (`if self.yourReferenceByCLID.get(tracker.clid) is tracker`) the first sentence holds at FULL strength, in every
-   history, without the safe_run guard ... *)
-Theorem C08_same_proxy_with_identity_rule : forall ops,
-  let s := run_k DelByIdentity init ops in
-  forall i t p rest,
-    lost s = false -> nth_error (h_trk (hd s)) i = Some t -> t_proxy t = Some p ->
-    ch_oh s = MyRef (t_clid t) false :: rest ->
-    snd (step_k DelByIdentity s RecvOH) = [EvDelivered p].
-Proof. exact same_proxy_with_identity_rule. Qed.
-Print Assumptions C08_same_proxy_with_identity_rule.
-
-Theorem C08_one_proxy_per_clid_with_identity_rule : forall ops,
-  let s := run_k DelByIdentity init ops in
-  forall i j ti tj, nth_error (h_trk (hd s)) i = Some ti -> nth_error (h_trk (hd s)) j = Some tj ->
-                    t_proxy ti <> None -> t_proxy tj <> None -> t_clid ti = t_clid tj -> i = j.
-Proof. exact one_proxy_per_clid_with_identity_rule. Qed.
-Print Assumptions C08_one_proxy_per_clid_with_identity_rule.
-
-(* ... and the moment the SOURCE uses that rule (the constant is re-read from freeYourReferenceTracker on every run) the
-   statement holds of `run` / `step` themselves *)
-Theorem C08_same_proxy_if_identity_rule :
-  freeTracker_delkey = DelByIdentity ->
-  forall ops, let s := run init ops in
-  forall i t p rest,
-    lost s = false -> nth_error (h_trk (hd s)) i = Some t -> t_proxy t = Some p ->
-    ch_oh s = MyRef (t_clid t) false :: rest ->
-    snd (step s RecvOH) = [EvDelivered p].
-Proof. exact same_proxy_if_identity_rule. Qed.
-Print Assumptions C08_same_proxy_if_identity_rule.
